@@ -276,7 +276,7 @@ def jobs(tier: str, seed: int):
         keep = {"reduce_of_expr", "sharing", "matmul_chain", "stack_of_reductions", "reshape_cf", "adv_index", "where_idx",
                 "roll_transpose", "einsum_forms", "data_wrappers", "mixed_pipeline", "reductions", "creation", "stack_concat",
                 "out_is_input", "csr_matmul", "loopy_calls", "loopy_call_scalar_binding", "handmade_index_lambda",
-                "like_dtype_override", "zero_size_reduction", "adv_index_4d", "csr_computed", "adv_index_nonneg", "adv_index_long", "logical_nonbool", "mixed_dtype_join", "narrowing_casts"}
+                "like_dtype_override", "zero_size_reduction", "adv_index_4d", "csr_computed", "adv_index_nonneg", "adv_index_long", "logical_nonbool", "mixed_dtype_join", "narrowing_casts", "repeated_operands"}
         progs = [p for p in progs if p.name in keep or p.name.startswith("g2_")]
     J = []
     for P in progs:
